@@ -286,6 +286,21 @@ class _URL:
     def __init__(self, u, how):
         self.how = how
         self.absolute = u.bool("url.absolute")
+        self._u = u
+        # yarl.URL(str) splits and validates the authority LAZILY: a bad host / port raises ValueError only when
+        # host, raw_host or port is first read (URL.build(...) validates eagerly)
+        self.lazy = how == "URL"
+        self.forced = False
+
+    @property
+    def raw_host(self):
+        first, self.forced = not self.forced, True
+        if self.lazy and first and self._u.choose(2, "url.lazy_authority_invalid"):
+            raise ValueError("Port out of range 0-65535")
+        return "host"
+
+    host = raw_host
+    port = raw_host
 
 
 @unit("C01", "request_line", functions=[f"{MOD}:HttpRequestParser.parse_message"], also=("C10", "C02"))
@@ -357,7 +372,10 @@ def request_line(u: U):
             url_calls.append(("URL", path))
             if u.choose(2, "URL.raises"):
                 raise ValueError("Invalid IPv6 URL")
-            return _URL(u, "URL")
+            r = _URL(u, "URL")
+            if isinstance(path, SText) and u.c._check(z3.Not(path.t == z3.StringVal("*"))) == z3.unsat:
+                r.lazy = False  # the asterisk form has no authority that could be invalid
+            return r
 
         def build(self, **kw):
             url_calls.append(("build", kw))
@@ -382,6 +400,13 @@ def request_line(u: U):
         return
     u.cover("C01.request_line.accepted")
     m = out.value
+    mu = getattr(m, "url", None)
+    if isinstance(mu, _URL) and mu.lazy and mu.absolute is not False:
+        u.check("C10.escape.lazy_url_forced", mu.forced,
+                "an absolute-form target is validated completely inside parse_message (yarl checks host and port only "
+                "when they are first read): otherwise the ValueError surfaces later, in the connection task, outside any "
+                "handler - the request is never answered and the connection is left open",
+                known=[("F5a", True)], witness={"request": "GET http://a:99999/ HTTP/1.1"})
     sp = z3.Re(z3.StringVal(" "))
     # the accepted request line, byte for byte (decode is the identity on the ASCII skeleton: assumed lemma U1)
     # component obligations (single-variable regular facts + one word equation); together with the discharged
